@@ -35,9 +35,14 @@ for pid in sorted(props):
                   f"{c.get('correspondence_cases')} ({c.get('correspondence_mismatches')}) | {c.get('oracle_evaluations')} | "
                   f"{', '.join(c.get('known_findings_hit', {}).keys()) or '–'} | {e['wall_s']} |")
 status = "\n".join(strows)
+man = json.loads((ROOT / "MANIFEST.json").read_text())
+ab = []
+for c in man["checks"]:
+    ab.append(f"**{c['property_id']}** — {c['level_claimed']['text']}\n\n*Assumed / trusted / partial:* {c['level_note']}\n")
+asbuilt = "\n".join(ab)
 p = ROOT / "DESIGN.md"
 s = p.read_text()
-for name, body in (("FINDINGS", findings), ("SEEDED", seeded), ("STATUS", status)):
+for name, body in (("FINDINGS", findings), ("SEEDED", seeded), ("STATUS", status), ("ASBUILT", asbuilt)):
     b, e = f"<!-- BEGIN {name} -->", f"<!-- END {name} -->"
     if b in s:
         s = s[: s.index(b) + len(b)] + "\n" + body + "\n" + s[s.index(e):]
